@@ -282,7 +282,8 @@ def run(m: Model, r: Report, tier: str) -> None:
     r.check(okz0, "R10", f"{lo.qualname}#first-record", "record 0 starts at offset 0 (and only record 0 takes that shortcut)", loc=lo.loc)
     recs_fn = m.require_function(f"{LOG}.PenlogReader.records")
     wl = [n for n in walk_no_nested(recs_fn.node) if isinstance(n, ast.While)]
-    r.check(len(wl) == 2 and all(any("self.readline()" in ast.unparse(s_) for s_ in w_.body[:1]) for w_ in wl), "R10", f"{recs_fn.qualname}#reads-each-record",
+    # (canonical view: `while True: if self.readline() == b"": break; ...` is the loop `while self.readline() != b"": ...`)
+    r.check(len(wl) == 2 and all("self.readline()" in ast.unparse(w_.test) or any("self.readline()" in ast.unparse(s_) for s_ in w_.body[:1]) for w_ in wl), "R10", f"{recs_fn.qualname}#reads-each-record",
             "both iteration directions must read the line at the current position first in every iteration", loc=recs_fn.loc)
 
     # positioning primitives
@@ -314,13 +315,18 @@ def run(m: Model, r: Report, tier: str) -> None:
     fw = next((w_ for w_ in wl if not any(isinstance(x, ast.Try) for x in w_.body)), None)
     bw = next((w_ for w_ in wl if any(isinstance(x, ast.Try) for x in w_.body)), None)
     if fw is not None and bw is not None:
-        eof = [n for n in fw.body if isinstance(n, ast.If) and "self.readline()" in ast.unparse(n.test)]
-        okfw = len(eof) == 1 and isinstance(eof[0].body[0], ast.Break) and isinstance(eof[0].test, ast.Compare) and isinstance(eof[0].test.ops[0], ast.Eq) and \
-            ast.unparse(eof[0].test.comparators[0]) == "b''" and not any(isinstance(n, ast.Continue) for n in ast.walk(fw))
-        r.check(okfw, "R10", f"{recs_fn.qualname}#forward-ends-at-eof", "the forward loop must stop exactly when readline() returns b''", loc=recs_fn.loc)
+        # the loop runs while the line read is not b"" (evaluated over the line read), and nothing skips the read
+        def _runs(line) -> bool:
+            return bool(miniterp.eval_expr(fw.test, {}, lambda call, env_: line if ast.unparse(call.func) == "self.readline" else NotImplemented))
+        try:
+            okfw = "self.readline()" in ast.unparse(fw.test) and [_runs(x_) for x_ in (b"", b"\n", b"{}\n", b"x")] == [False, True, True, True] \
+                and not any(isinstance(n, ast.Continue) for n in ast.walk(fw))
+        except AnalysisError:
+            okfw = None
+        r.check3(okfw, "R10", f"{recs_fn.qualname}#forward-ends-at-eof", "the forward loop must stop exactly when readline() returns b''", loc=recs_fn.loc)
         tr_b = [n for n in bw.body if isinstance(n, ast.Try)]
         okbw = len(tr_b) == 1 and "self.seek_to_previous_record()" in ast.unparse(tr_b[0].body[0]) and \
-            any(h.type is not None and ast.unparse(h.type) == "IndexError" and isinstance(h.body[-1], ast.Break) for h in tr_b[0].handlers)
+            any(h.type is not None and ast.unparse(h.type) == "IndexError" and isinstance(h.body[-1], (ast.Break, ast.Return)) for h in tr_b[0].handlers)
         r.check(okbw, "R10", f"{recs_fn.qualname}#reverse-steps-back", "the reverse loop must step to the previous record and stop at the IndexError of record -1", loc=recs_fn.loc)
     # the reader accepts exactly the version the writer emits
     fmt_ = m.require_function(f"{LOG}._JSONFormatter.format")
@@ -470,7 +476,8 @@ def run(m: Model, r: Report, tier: str) -> None:
     # a line that was read is parsed only after it was found non-empty (end of data / a log without records): in both directions
     grec = CFG(rec.node)
     prio_nodes = {n.id for n in grec.nodes.values() if n.kind == "cond" and n.ast is not None and "self.current_priority" in ast.unparse(n.ast)}
-    empt = [n for n in grec.nodes.values() if n.kind == "cond" and n.ast is not None and "self.readline()" in ast.unparse(n.ast) and "b''" in ast.unparse(n.ast)]
+    empt = [n for n in grec.nodes.values() if n.kind in ("cond", "loop") and n.ast is not None and "self.readline()" in (n.label if n.kind == "loop" else ast.unparse(n.ast))
+            and "b''" in (n.label if n.kind == "loop" else ast.unparse(n.ast))]
     if len(prio_nodes) != 2:
         raise AnalysisError(f"{rec.qualname}: expected two priority tests (forward / reverse)")
 
